@@ -17,7 +17,7 @@ Fixpoint list_eqb {A} (f : A -> A -> bool) (a b : list A) : bool :=
 Definition details_eqb (a b : details) : bool :=
   (d_owner a =? d_owner b) && (d_sub a =? d_sub b) && (d_pub a =? d_pub b)
   && opt_eqb N.eqb (d_publisher a) (d_publisher b) && (d_topic a =? d_topic b)
-  && opt_eqb Bool.eqb (d_retained a) (d_retained b).
+  && opt_eqb Bool.eqb (d_retained a) (d_retained b) && (d_extra a =? d_extra b).
 Definition kval_eqb (a b : kval) : bool :=
   match a, b with
   | KInt x, KInt y => Z.eqb x y
@@ -100,11 +100,12 @@ Definition HS (sg : signature) (chk : bool) (ann : option anntype) (b : behaviou
   {| hs_sig := sg; hs_check := chk; hs_ann := ann; hs_beh := b |}.
 Definition Opts (d : option bool) (da : option key) (m : option matchpol) (gr : option bool) : subopts :=
   {| o_details := d; o_details_arg := da; o_match := m; o_get_retained := gr |}.
-Definition Ev (sub pub : N) (args : list Z) (kw : kwargs) (publisher topic : option N) (ret : option bool) : event :=
+Definition Ev (sub pub : N) (args : list Z) (kw : kwargs) (publisher topic : option N) (ret : option bool) (extra : N) : event :=
   {| e_sub := sub; e_pub := pub; e_args := args; e_kwargs := kw; e_publisher := publisher; e_topic := topic;
-     e_retained := ret |}.
-Definition Det (owner sub pub : N) (publisher : option N) (topic : N) (ret : option bool) : kval :=
-  KDet {| d_owner := owner; d_sub := sub; d_pub := pub; d_publisher := publisher; d_topic := topic; d_retained := ret |}.
+     e_retained := ret; e_extra := extra |}.
+Definition Det (owner sub pub : N) (publisher : option N) (topic : N) (ret : option bool) (extra : N) : kval :=
+  KDet {| d_owner := owner; d_sub := sub; d_pub := pub; d_publisher := publisher; d_topic := topic; d_retained := ret;
+          d_extra := extra |}.
 
 (* the modelled options normalisation against the real SubscribeOptions / Subscribe.marshal:
    expected = None when the constructor raised AssertionError, else (details_arg, marshalled match, marshalled get_retained) *)
